@@ -353,8 +353,7 @@ class World:
             ev["exc_response"] = bytes(resp) if isinstance(resp, (bytes, bytearray, memoryview)) else resp
         if op.get("scribble") and bufkind in ("bytearray", "memoryview"):
             tgt = arg if bufkind == "bytearray" else backing
-            for i in range(len(tgt)):
-                tgt[i] = 0xEE
+            tgt[:] = b"\xee" * len(tgt)
             ev["scribbled"] = len(tgt) > 0
         ev["st_after"] = state_name(se.real)
         if self.observe_pending:
